@@ -62,6 +62,6 @@ def obligations(tier, ctx):
     # failing handlers: exception text from a corpus (empty, multi-line, control characters, long) by symbolic index
     for meth, psel in (("custom/raise", 0), ("notifications/custom_fail", 0), ("tools/call", 8), ("resources/read", 7)):
         for has in (True, False):
-            obs.append(Ob(name=f"exc_{meth.replace('/', '_')}_{'id' if has else 'noid'}", params=[("rid", "int"), ("tsel", "int"), ("hsel", "int")], pre=["0 <= tsel <= 5", "6 <= hsel <= 12"],
+            obs.append(Ob(name=f"exc_{meth.replace('/', '_')}_{'id' if has else 'noid'}", params=[("rid", "int"), ("tsel", "int"), ("hsel", "int")], pre=["0 <= tsel <= 5", "6 <= hsel <= 12"] + (["hsel == 6 or tsel <= 1"] if tier == "quick" else []),
                           call=f"H.dispatch_exc({meth!r}, {has}, rid if {has} else None, {psel}, hsel, tsel)", backend="F", timeout=200, family="handler raises (exception class x text corpus)"))
     return obs
